@@ -1673,22 +1673,28 @@ def skel_file_runStage : List String := [
   "defer unsetEnvs(v3.Params, v1)",
   "v5, v6 := context.WithTimeout(v0, v3.StageDuration-safeDurationBeforeNextStage)",
   "defer v6()",
-  "v7 := make(chan struct{})",
-  "go func() {",
-  "defer close(v7)",
-  "if v3.UsersConcurrency == 0 {",
-  "v8 := api.NewIterationWorker(v3.IterationDuration, v3.Rate)",
-  "v8(v5, v1, v2, v4)",
-  "} else {",
-  "v9 := users.NewWorker(v3.UsersConcurrency)",
-  "v9(v5, v1, v2, v4)",
+  "if v3.UsersConcurrency > 0 {",
+  "v7 := v2.NewContinuousPool(v3.UsersConcurrency)",
+  "v7.Start(v5)",
+  "select {",
+  "case <-v0.Done():",
+  "return",
+  "case <-v2.WaitForCompletion():",
+  "time.Sleep(safeDurationBeforeNextStage)",
   "}",
+  "return",
+  "}",
+  "v8 := make(chan struct{})",
+  "go func() {",
+  "defer close(v8)",
+  "v9 := api.NewIterationWorker(v3.IterationDuration, v3.Rate)",
+  "v9(v5, v1, v2, v4)",
   "}()",
   "select {",
   "case <-v0.Done():",
-  "<-v7",
+  "<-v8",
   "return",
-  "case <-v7:",
+  "case <-v8:",
   "time.Sleep(safeDurationBeforeNextStage)",
   "}",
   "}"
